@@ -264,11 +264,11 @@ func numConns(e *env) uint64 {
 // reading the real counters
 
 type acctObs struct {
-	Res   int64 `json:"connections_cur"`
-	Host  int64 `json:"host_upstream_connection_active"`
-	Clu   int64 `json:"cluster_upstream_connection_active"`
-	Down  int64 `json:"handler_connections"`
-	Ovf   int   `json:"refused"`
+	Res   int64  `json:"connections_cur"`
+	Host  int64  `json:"host_upstream_connection_active"`
+	Clu   int64  `json:"cluster_upstream_connection_active"`
+	Down  int64  `json:"handler_connections"`
+	Ovf   int    `json:"refused"`
 	After string `json:"after"`
 }
 
@@ -314,13 +314,13 @@ func (ae *acctEnv) readStable(c *acctCluster, downBase int64) acctObs {
 // sessions
 
 type acctSess struct {
-	idx      int
-	cli      net.Conn
-	up       *upConn
-	cc       types.ClientConnection
-	estab    bool // the upstream peer accepted and nothing has been closed yet
-	ended    bool
-	cliEOF   chan struct{}
+	idx    int
+	cli    net.Conn
+	up     *upConn
+	cc     types.ClientConnection
+	estab  bool // the upstream peer accepted and nothing has been closed yet
+	ended  bool
+	cliEOF chan struct{}
 }
 
 func (s *acctSess) watch() {
@@ -330,6 +330,7 @@ func (s *acctSess) watch() {
 		close(s.cliEOF)
 	}()
 }
+
 // barrier: one byte through the relay.  The downstream read loop is started after initializeUpstreamConnection has
 // returned, so once the upstream peer has the byte the set-up (accounting included) is over.
 func (s *acctSess) barrier(ar *acctRun) {
